@@ -858,6 +858,18 @@ impl<'a, 'b, 'ast> Visit<'ast> for BodyV<'a, 'b> {
     }
 }
 
+/// R1.vis: make an item / field / fn `pub` (contracts mention them across modules)
+fn make_pub(fc: &mut FileCtx, vis: &Visibility, at: usize) {
+    match vis {
+        Visibility::Public(_) => {}
+        Visibility::Inherited => fc.edit_ord(at, at, "pub ", "R1.vis", -2),
+        Visibility::Restricted(r) => {
+            let rr = range_of(r);
+            fc.edit(rr.0, rr.1, "pub", "R1.vis");
+        }
+    }
+}
+
 fn type_is_asref(b: &TypeParamBound, cfg: &Cfg) -> Option<String> {
     if let TypeParamBound::Trait(tb) = b {
         let last = tb.path.segments.last()?;
@@ -1372,17 +1384,22 @@ fn main() {
                         used_closures: HashSet::new(),
                     };
                     match item {
+                        Item::Struct(s) => make_pub(bv.fc, &s.vis, br(s.struct_token.span()).0),
+                        Item::Enum(e) => make_pub(bv.fc, &e.vis, br(e.enum_token.span()).0),
+                        Item::Const(c) => make_pub(bv.fc, &c.vis, br(c.const_token.span()).0),
+                        Item::Type(t) => make_pub(bv.fc, &t.vis, br(t.type_token.span()).0),
+                        _ => {}
+                    }
+                    match item {
                         Item::Struct(s) => {
                             for f in s.fields.iter() {
                                 bv.fc.strip_attrs(&f.attrs);
                                 bv.visit_type(&f.ty);
                                 // R1.vis: private fields become pub so that contracts (spec
                                 // functions) can mention them from other modules
-                                if matches!(f.vis, Visibility::Inherited) {
-                                    if let Some(id) = &f.ident {
-                                        let (a, _) = br(id.span());
-                                        bv.fc.edit_ord(a, a, "pub ", "R1.vis", -2);
-                                    }
+                                if let Some(id) = &f.ident {
+                                    let (a, _) = br(id.span());
+                                    make_pub(bv.fc, &f.vis, a);
                                 }
                             }
                             // make fields and the struct pub? visibility kept as is (same module tree)
@@ -1461,6 +1478,7 @@ fn main() {
                             }
                         }
                         process_fn(&mut fc, &f.attrs, &f.vis, &f.sig, Some(&f.block), &u, &nested, &name, false);
+                        make_pub(&mut fc, &f.vis, range_of(&f.sig).0);
                         segs.push((r.0, r.1, "fn".into(), u.id.clone()));
                     } else {
                         dropped.push(format!("fn {name}"));
@@ -1554,9 +1572,9 @@ fn main() {
                         }
                         let vis = if inherent { m.vis.clone() } else { m.vis.clone() };
                         process_fn(&mut fc, &m.attrs, &vis, &m.sig, Some(&m.block), &u, &nested, &m.sig.ident.to_string(), false);
-                        if inherent && matches!(m.vis, Visibility::Inherited) {
+                        if inherent || im.trait_.is_none() {
                             let s = range_of(&m.sig).0;
-                            fc.edit_ord(s, s, "pub ", "R13.inherent.pub", -10);
+                            make_pub(&mut fc, &m.vis, s);
                         }
                         let mr = range_of(m);
                         segs.push((mr.0, mr.1, "method".into(), u.id.clone()));
